@@ -11,6 +11,9 @@ import MW.Model.Iso
 import MW.Gen.Iso
 import MW.Lemmas.Iso
 import MW.Props.C01
+import MW.Model.Locks
+import MW.Gen.Locks
+import MW.Lemmas.Locks
 namespace MW.Props.C17
 open MW MW.Model.Ledger MW.Model.Iso MW.Lemmas.Iso
 
@@ -161,5 +164,50 @@ example : HeightsOk wS2 "W1" := by constructor <;> decide
 example : NodupKeys wS2.unspent := by unfold NodupKeys; decide
 example : ∀ l : List Listed, ((fun (l : List Listed) => l.take 2) l).Sublist l := fun l => List.take_sublist 2 l
 example : countedSpendable 1 6 ⟨"W1", "C1", 0, ⟨1, "B1"⟩, wCred 100⟩ = true := by decide
+
+/-! ### (b) race freedom — PARTIAL by nature
+
+  A theorem about the access table the extractor regenerates from the source (field, site, read/write,
+  lexically held mutexes incl. those every caller holds, goroutine roles, suspend/resume window), judged in
+  the role model of MW.Model.Locks. The Go memory model, aliasing between instances of the same type and
+  accesses the extractor cannot see syntactically are outside it; the race-detector runs of the `race`
+  engine search for what the table misses. -/
+section locks
+open MW.Model.Locks
+
+set_option maxRecDepth 100000 in
+/-- lockset_safe: every two conflicting accesses of the generated table that can run concurrently share a
+    mutex (held exclusively on at least one side) or are ordered by the hand-shake / goroutine creation. -/
+theorem lockset_table_ok : tableOk MW.Gen.Locks.table = true := by decide
+
+theorem lockset_safe (a b : Access) (ha : a ∈ MW.Gen.Locks.table) (hb : b ∈ MW.Gen.Locks.table)
+    (hc : conflicting a b = true) :
+    commonLock a b = true ∨ ∀ ra ∈ a.roles, ∀ rb ∈ b.roles, unordered a b ra rb = false :=
+  MW.Lemmas.Locks.tableOk_sound _ lockset_table_ok a b ha hb hc
+
+/-- the hand-shake question of the task: `h.bestBlock` is read and `h.expiredMempool` is written by the
+    worker (asyncImport) without memMtx – every such access lies inside a suspend()…resume() window, so the
+    only other goroutine touching those fields (the follower, under memMtx) is ordered with it. -/
+theorem worker_unlocked_accesses_in_window :
+    (MW.Gen.Locks.table.filter (fun a =>
+        (a.field = "NtfnsHandler.bestBlock" || a.field = "NtfnsHandler.expiredMempool") &&
+        a.roles.contains .worker && a.locks.isEmpty && a.fn = "NtfnsHandler.asyncImport")).all (·.window) = true ∧
+    (MW.Gen.Locks.table.filter (fun a =>
+        (a.field = "NtfnsHandler.bestBlock" || a.field = "NtfnsHandler.expiredMempool") &&
+        a.roles.contains .api)).isEmpty = true := by decide
+
+/-- the task queue pointer is written during initialisation only (D10) -/
+theorem taskChan_written_in_init_only :
+    (MW.Gen.Locks.table.filter (fun a => a.field = "NtfnsHandler.taskChan" && a.write)).all
+      (fun a => a.roles == [.init]) = true := by decide
+
+-- non-vacuity: the table has conflicting concurrent pairs that the check must (and does) justify
+example : (MW.Gen.Locks.table.filter (fun a => a.write)).length > 10 := by decide
+example : ∃ a ∈ MW.Gen.Locks.table, ∃ b ∈ MW.Gen.Locks.table, conflicting a b = true ∧ commonLock a b = true := by decide
+/-- the check is not vacuous: an unlocked write next to a locked read is rejected -/
+example : tableOk [⟨"F", "x.go:1", "f", true, [], [.worker], false⟩, ⟨"F", "x.go:2", "g", false, [("M", true)], [.api], false⟩] = false := by decide
+/-- … and accepted when the worker's access is in the window and the other side is the follower -/
+example : tableOk [⟨"F", "x.go:1", "f", true, [], [.worker], true⟩, ⟨"F", "x.go:2", "g", false, [("M", true)], [.follower], false⟩] = true := by decide
+end locks
 
 end MW.Props.C17
